@@ -540,6 +540,17 @@ func (c *Conn) Close() error {
 // If the connection is closed before the request reaches the write loop, the
 // Ctx is resolved with the reason instead of being left to time out.
 func (c *Conn) Write(r *Ctx) {
+	// A connection that is already closed takes nothing. Checked on its own
+	// first: with room in the queue the select below may pick the send even
+	// though done is closed.
+	select {
+	case <-c.done:
+		r.resolve(c.closeErr())
+
+		return
+	default:
+	}
+
 	select {
 	case c.in <- r:
 		verifClientEnq("in")
@@ -553,10 +564,17 @@ func (c *Conn) Write(r *Ctx) {
 
 	// The write loop may have gone away between the send and now, in which case
 	// it has already drained the queue and nobody will ever pick this Ctx up.
-	// Resolving twice is harmless: Err is buffered and read once.
+	// Resolving twice is harmless: Err is buffered and read once. It may just as
+	// well have put the request on the wire before it went, so the error must
+	// not be one that reads as "never sent".
 	select {
 	case <-c.done:
-		r.resolve(c.closeErr())
+		err := c.LastErr()
+		if err == nil {
+			err = io.ErrUnexpectedEOF
+		}
+
+		r.resolve(err)
 	default:
 	}
 }
